@@ -295,6 +295,8 @@ class Evaluator:
         raise Undecided(f"pattern {t!r}")
 
     def _matches_flat(self, pat, v):
+        if "|" in pat and "(" not in pat and "{" not in pat and not pat.startswith(("'", '"')):
+            return any(self._matches_flat(p_.strip(), v) for p_ in pat.split("|"))      # `A | B`: either
         if isinstance(v, tuple) and v and v[0] == "variant":
             # an enum value known by its variant: the pattern names a variant (path, possibly with sub-patterns) or binds
             head = pat.split("(")[0].split("{")[0].strip()
